@@ -814,14 +814,7 @@ fn run_case(c: &Case, ctx: &mut Ctx) -> CaseResult {
 		foreign: None,
 		aborted: None,
 	};
-	let mut r = run_inner(c, ctx, &mut run);
-	// development aid only (never set by ./check): turn the listed failure keys into labels
-	if let (Err(f), Ok(skip)) = (&r, std::env::var("VERIF_C04_DEV_SKIP")) {
-		if skip.split(',').any(|k| k == f.key) {
-			ctx.label(&format!("dev-skipped:{}", f.key));
-			r = Ok(());
-		}
-	}
+	let r = run_inner(c, ctx, &mut run);
 	if ctx.replay {
 		println!("==== steps ====");
 		for l in run.trace.iter() {
@@ -888,9 +881,6 @@ fn run_inner(c: &Case, ctx: &mut Ctx, run: &mut Run) -> CaseResult {
 					Err(e) => {
 						run.note(format!("[{}] send refused: {}", si, e));
 						ctx.label(&format!("send-refused:{}", e.chars().take(60).collect::<String>()));
-						if std::env::var("VERIF_C04_DEBUG").is_ok() {
-							ctx.label(&format!("dbg-refused:{} keysend={} delta={} amt={} total={} tlvs={} meta={:?}", e.chars().take(30).collect::<String>(), req.keysend_preimage.is_some(), req.final_delta, req.amt, req.total, req.tlvs.len(), req.metadata.as_ref().map(|m| m.len())));
-						}
 						// the sender may have queued events about the failed attempt
 						run.sim.process_events(run.sim.chans[req.chan].a);
 					},
@@ -1346,8 +1336,8 @@ fn main() {
 		PartSpec {
 			name: "receive",
 			rule: "R with 1-3 channels from 1-2 senders, 1-3 registrations (create_inbound_payment / _for_hash / keysend, optional minimum, expiry, min_final_cltv, metadata; the same hash registered twice), 3-30 steps: sends with generated secret (valid, other registration's, single bit flipped, random, none), total (exact, +-1, multiples), amounts (shares, exact rest, +-1), metadata, custom TLVs and final CLTV around the acceptance boundaries, over any channel in any order, timer ticks, blocks, header-time jumps to a registration's expiry +-1 s, mining to the advertised claim_deadline -3..+2, claim_funds (with / without known TLVs), fail_htlc_backwards, R force-closing a channel; every decision of R is compared with the reference model, every PaymentClaimable / PaymentClaimed field with the parts, every fulfil / fail with the claims. Non-trivial: R decided on >=1 part and the case has >=2 parts, a tampered field, a CLTV at a boundary or a claim within 2 blocks of the deadline",
-			quick_cases: 3000,
-			thorough_cases: 100_000,
+			quick_cases: 2600,
+			thorough_cases: 80_000,
 			max_shrink: 600,
 		},
 		|| case_strat(30),
@@ -1357,8 +1347,8 @@ fn main() {
 		PartSpec {
 			name: "secret-sweep",
 			rule: "one channel, 4-16 single-part payments per case with the secret of registration 0 bit-flipped (all 256 positions reachable), replaced by another registration's or random, metadata tampered, total +-1; each is processed alone and must be failed back unless every field is the issued one; then an untampered payment is claimed. Non-trivial: as above",
-			quick_cases: 1000,
-			thorough_cases: 40_000,
+			quick_cases: 700,
+			thorough_cases: 20_000,
 			max_shrink: 400,
 		},
 		|| sweep_strat(16),
@@ -1369,7 +1359,7 @@ fn main() {
 			name: "preimage-api",
 			rule: "create_inbound_payment on a long-lived node with generated amount / expiry / min_final_cltv / metadata; get_payment_preimage_decrypt_metadata must return the preimage and plaintext metadata for exactly the issued (hash, secret, metadata) and reject all 256 single-bit flips of the secret, generated multi-byte masks, tampered / truncated / extended / missing metadata, secrets and hashes of other registrations and for_hash secrets. Every case is non-trivial",
 			quick_cases: 60_000,
-			thorough_cases: 2_000_000,
+			thorough_cases: 1_500_000,
 			max_shrink: 200,
 		},
 		api_strat,
